@@ -1,4 +1,4 @@
-import OjgVerif.Json.Tables
+import OjgVerif.Json.Lemmas
 /-! # C01 — strict JSON front-ends accept exactly the RFC 8259 language
 
 Re-checked on every run against the regenerated tables (`Gen.Oj`, `Gen.GenPkg`). -/
@@ -86,5 +86,27 @@ theorem ojTables_ok : TablesOK ojTables :=
 /-- every cell of the 21 regenerated `gen` mode tables is the reference transition -/
 theorem genTables_ok : TablesOK genTables :=
   tablesOK_of_checks genCodes genTbl _ (by decide +kernel) (by decide +kernel) (by decide +kernel)
+
+end OjgVerif.C01
+
+namespace OjgVerif.C01
+open OjgVerif OjgVerif.Json
+
+/-- oj.Parser / oj.Validator / oj.Tokenizer over the regenerated `oj` tables behave exactly like the
+reference automaton: same documents, values and error line/column/kind, for every configuration
+(single/multi document, reader or `[]byte` entry, integer fast loop) and every chunking. -/
+theorem oj_is_reference (cfg : Cfg) (chunks : List Bytes) :
+    run ojTables cfg chunks = run refTables cfg chunks :=
+  run_eq_ref ojTables_ok cfg chunks
+
+/-- the same for gen.Parser over the regenerated `gen` tables -/
+theorem gen_is_reference (cfg : Cfg) (chunks : List Bytes) :
+    run genTables cfg chunks = run refTables cfg chunks :=
+  run_eq_ref genTables_ok cfg chunks
+
+/-- consequently the two packages' machines agree with each other on every input -/
+theorem oj_eq_gen (cfg : Cfg) (chunks : List Bytes) :
+    run ojTables cfg chunks = run genTables cfg chunks := by
+  rw [oj_is_reference, gen_is_reference]
 
 end OjgVerif.C01
